@@ -240,6 +240,9 @@ class TDRedfieldRelaxationTensor(RedfieldRelaxationTensor, TimeDependent):
         if not self._data_initialized:
             # here we work with the storage of the managed operators; reading
             # them through the properties would ask for this transformation
+            self._Lm = self._storage_for_transform(self._Lm, SS)
+            self._Ld = self._storage_for_transform(self._Ld, SS)
+            self._Km = self._storage_for_transform(self._Km, SS)
             for tt in range(self.Nt):
                 for m in range(self._Km.shape[0]):
                     self._Lm[tt, m, :, :] = \
@@ -257,6 +260,9 @@ class TDRedfieldRelaxationTensor(RedfieldRelaxationTensor, TimeDependent):
                 print("\nQr >>> Relaxation tensor '%s' changes basis" %self.name)
            
         
+        # the values are written back into the storage
+        self._data = self._storage_for_transform(self._data, SS)
+
         for tt in range(self.Nt):
             for c in range(dim):
                 for d in range(dim):
